@@ -90,7 +90,8 @@ class DefValidator(DefinitionDict):
             def_contents = def_entry.get_definition(def_tag, placeholder_value=placeholder,
                                                     return_copy_of_tag=True)
             if def_contents is not None:
-                if is_def_expand_tag and def_expand_group != def_contents:
+                # Sibling order carries no meaning in HED, so compare the two groups in sorted form.
+                if is_def_expand_tag and def_expand_group.sorted() != def_contents.sorted():
                     def_issues += ErrorHandler.format_error(ValidationErrors.HED_DEF_EXPAND_INVALID,
                                                             tag=def_tag, actual_def=def_contents,
                                                             found_def=def_expand_group)
